@@ -190,6 +190,13 @@ def wJ : List Stmt := [st 1 (.funcDef "f".toList (.mk [.mk "p".toList none, .mk 
 theorem witness_j : famJ "p".toList wJ = true ∧ (runProgram 100 wJ [] wS).1.ne = ["p".toList] ∧
     soundOn wB [{}] wS 100 wJ [] = false := by decide
 
+/-- (l) `def f():` / ` return [_K for x in [_K(_K for y in [_K] if x)]]` / `f()` -/
+def wL : List Stmt := [st 1 (.funcDef "f".toList noArgs [st 2 (.return_ (some
+  (.comp .list [.const] [.mk (nm "x") (.list [.call .const [.comp .gen [.const] [.mk (nm "y") (.list [.const]) [nm "x"]]]]) []])))] [] none)]
+def wLcalls : List Stmt := [st 3 (.expr (.call (nm "f") []))]
+theorem witness_l : famL "x".toList wL = true ∧ (runProgram 100 wL wLcalls wS).1.ne = ["x".toList] ∧
+    soundOn wB [{}] wS 100 wL wLcalls = false := by decide
+
 /-- with the proposed repairs (fixes/C05-D9bcfg.diff, fixes/C05-D9a.diff) in the model, the witnesses of families
     (a), (b), (c), (f), (g) are reported; (d), (e), (h), (i), (j) stay un-reported (known findings). -/
 def allFixes : Fixes := { exceptUnbind := true, augLoad := true, forIterFirst := true, annValueFirst := true, compScope := true }
